@@ -532,7 +532,10 @@ def handle (st : DState) (line : String) : String × DState :=
      | some m =>
        match msgStep st.cfg noFaults st.w.orb m with
        | .ok (o, evs, _) => ("res=ok ev=" ++ listOrDash evs ++ " st=" ++ stateStr o, { st with w := { st.w with orb := o } })
-       | .err t => ("res=err ev=- st=" ++ stateStr st.w.orb ++ " tag=" ++ t, st)
+       | .err t =>
+         -- whose refusal it is: the module's own (registered under its codespace) or the bridge module's, handed through
+         let ecs := if t.startsWith "cctp:" then "ext" else "orbiter"
+         ("res=err ev=- st=" ++ stateStr st.w.orb ++ " ecs=" ++ ecs ++ " tag=" ++ t, st)
        | .panic s => ("res=panic ev=- st=" ++ stateStr st.w.orb ++ " tag=" ++ s, st))
   | ["escrowfund", ch, d, n] =>
     -- coins of a further native denomination escrowed on a channel, with ICS-20's total-escrow bookkeeping
